@@ -129,7 +129,12 @@ impl HeaderPrefix {
         max_table_size: usize,
     ) -> Result<(usize, usize), ParseError> {
         if max_table_size == 0 {
-            return Ok((0, 0));
+            // Without a dynamic table only Required Insert Count 0 can be satisfied
+            // and the base must not be negative.
+            if self.sign_negative {
+                return Err(ParseError::InvalidBase(-(self.delta_base as isize) - 1));
+            }
+            return Ok((self.encoded_insert_count, self.encoded_insert_count));
         }
 
         // 4.5.1.1. Required Insert Count
